@@ -12,22 +12,22 @@ import (
 
 // Config is the option set and target of one writing session.
 type Config struct {
-	Store      string    `json:"store"` // "rw" blockstore.ReadWrite | "sc" storage.StorageCar
-	DataPad    uint64    `json:"data_pad,omitempty"`
-	IndexPad   uint64    `json:"index_pad,omitempty"`
-	IndexCodec uint64    `json:"index_codec,omitempty"` // 0 default, 0x400, 0x401
-	StoreID    bool      `json:"store_identity,omitempty"`
-	WholeCIDs  bool      `json:"whole_cids,omitempty"`
-	AllowDup   bool      `json:"allow_dup,omitempty"`
-	CarV1      bool      `json:"car_v1,omitempty"`
-	MaxIdxCid  uint64    `json:"max_index_cid,omitempty"` // 0 default
-	ZeroEOF    bool      `json:"zero_eof,omitempty"`
-	MaxHeader  uint64    `json:"max_header,omitempty"`
-	MaxSection uint64    `json:"max_section,omitempty"`
+	Store      string `json:"store"` // "rw" blockstore.ReadWrite | "sc" storage.StorageCar
+	DataPad    uint64 `json:"data_pad,omitempty"`
+	IndexPad   uint64 `json:"index_pad,omitempty"`
+	IndexCodec uint64 `json:"index_codec,omitempty"` // 0 default, 0x400, 0x401
+	StoreID    bool   `json:"store_identity,omitempty"`
+	WholeCIDs  bool   `json:"whole_cids,omitempty"`
+	AllowDup   bool   `json:"allow_dup,omitempty"`
+	CarV1      bool   `json:"car_v1,omitempty"`
+	MaxIdxCid  uint64 `json:"max_index_cid,omitempty"` // 0 default
+	ZeroEOF    bool   `json:"zero_eof,omitempty"`
+	MaxHeader  uint64 `json:"max_header,omitempty"`
+	MaxSection uint64 `json:"max_section,omitempty"`
 	// EOFAtEnd: the caller's ReaderAt (storage kinds only) reports io.EOF together with a full read
 	// that ends at the end of the medium.
-	EOFAtEnd bool `json:"eof_at_end,omitempty"`
-	Roots      []BlkSpec `json:"roots"`
+	EOFAtEnd bool      `json:"eof_at_end,omitempty"`
+	Roots    []BlkSpec `json:"roots"`
 }
 
 func (c Config) Options() []carv2.Option {
